@@ -1,4 +1,5 @@
 import MuduoVerif.Proofs.Client
+import MuduoVerif.Proofs.ClientSkelTie
 /-!
 # C12 — a client connects once per cycle, backs off, obeys stop/disconnect
 
@@ -202,6 +203,37 @@ theorem retry_policy (c : C) (r : List Task) (ph : Bool) (hi : Mid c r ph) (k : 
     (¬ (c.retry = true ∧ c.tConnect = true) →
       (handleClose c k).trace = c.trace ++ [.down k] ∧ (handleClose c k).nsock = c.nsock) :=
   handleClose_client_trace c r ph hi k x hx hst hcb
+
+/-- T1, statement order: in every `Connector` / `TcpClient` function the model implements (and in
+`detail::removeConnection`, `detail::removeConnector`) the source performs the same significant actions - state
+stores, channel operations (creation and destruction of the channel included), the new-connection callback, hand-offs
+to the loop, member calls, calls on the connector / the connection, socket calls, stores to members and locals,
+assertions - in the same order and under the same nesting of the generated guards (and of the classes of the
+generated errno table) as `Model/Client.lean` (`Model/ClientSkelDecl.lean`); re-extracted from /repo on every run
+(`Generated/ClientSkel.lean`), proved in `Proofs/ClientSkelTie.lean` -/
+theorem statement_order_tied :
+    Gen.ClientSkel.start = ClientSkel.Decl.start ∧
+    Gen.ClientSkel.startCycleInLoop = ClientSkel.Decl.startCycleInLoop ∧
+    Gen.ClientSkel.startInLoop = ClientSkel.Decl.startInLoop ∧
+    Gen.ClientSkel.stop = ClientSkel.Decl.stop ∧
+    Gen.ClientSkel.stopInLoop = ClientSkel.Decl.stopInLoop ∧
+    Gen.ClientSkel.connect = ClientSkel.Decl.connect ∧
+    Gen.ClientSkel.restart = ClientSkel.Decl.restart ∧
+    Gen.ClientSkel.connecting = ClientSkel.Decl.connecting ∧
+    Gen.ClientSkel.removeAndResetChannel = ClientSkel.Decl.removeAndResetChannel ∧
+    Gen.ClientSkel.resetChannel = ClientSkel.Decl.resetChannel ∧
+    Gen.ClientSkel.handleWrite = ClientSkel.Decl.handleWrite ∧
+    Gen.ClientSkel.handleError = ClientSkel.Decl.handleError ∧
+    Gen.ClientSkel.retry = ClientSkel.Decl.retry ∧
+    Gen.ClientSkel.detailRemoveConnection = ClientSkel.Decl.detailRemoveConnection ∧
+    Gen.ClientSkel.detailRemoveConnector = ClientSkel.Decl.detailRemoveConnector ∧
+    Gen.ClientSkel.dtor = ClientSkel.Decl.dtor ∧
+    Gen.ClientSkel.clientConnect = ClientSkel.Decl.clientConnect ∧
+    Gen.ClientSkel.clientDisconnect = ClientSkel.Decl.clientDisconnect ∧
+    Gen.ClientSkel.clientStop = ClientSkel.Decl.clientStop ∧
+    Gen.ClientSkel.newConnection = ClientSkel.Decl.newConnection ∧
+    Gen.ClientSkel.removeConnection = ClientSkel.Decl.removeConnection :=
+  ClientSkel.skeletons_agree
 
 /-! ### the hypotheses are satisfiable -/
 
